@@ -993,9 +993,14 @@ class NestedCommandsIrcProxy(ReplyIrcProxy):
                         m = _makeReply(self, msg, s, **replyArgs)
                         sendMsg(m)
                         return m
-                    # The '(XX more messages)' may have not the same
-                    # length in the current locale
-                    allowedLength -= len(_('(XX more messages)')) + 1 # bold
+                    # Room for the ' \x02(N more messages)\x02' suffix.  N is
+                    # smaller than the number of chunks, which is at most the
+                    # size of s once textwrap expanded its tabs (to at most
+                    # eight columns each).
+                    suffix = max(_('more message'), _('more messages'), key=len)
+                    suffix = ' ' + ircutils.bold('(%i %s)' % (8 * s_size, suffix))
+                    allowedLength -= (len(suffix.encode())
+                            if minisix.PY3 else len(suffix))
                     chunks = ircutils.wrap(s, allowedLength)
 
                     # Last messages to display at the beginning of the list
